@@ -31,16 +31,16 @@ EXTENDS Base, TLC, Json
 CONSTANTS MaxTime, ReadSize, PasteThreshold, MaxActions, Emit, Timeouts, Bursts
 
 VARIABLES wire, buf, qE, qI, qS, sig, tsPipe, sigPipe, now, pc, deadline, remaining, t0, when0,
-          delivered, nextId, hist, nact, reqT, hadSched
+          delivered, nextId, hist, nact, reqT, hadSched, held, ready
 
-vars == <<wire, buf, qE, qI, qS, sig, tsPipe, sigPipe, now, pc, deadline, remaining, t0, when0, delivered, nextId, hist, nact, reqT, hadSched>>
-view == <<wire, buf, qE, qI, qS, sig, tsPipe, sigPipe, now, pc, deadline, remaining, t0, when0, delivered, nextId, reqT, hadSched>>
+vars == <<wire, buf, qE, qI, qS, sig, tsPipe, sigPipe, now, pc, deadline, remaining, t0, when0, delivered, nextId, hist, nact, reqT, hadSched, held, ready>>
+view == <<wire, buf, qE, qI, qS, sig, tsPipe, sigPipe, now, pc, deadline, remaining, t0, when0, delivered, nextId, reqT, hadSched, held, ready>>
 NoDeadline == 9999
 None == -1
 
 Init == /\ wire = <<>> /\ buf = <<>> /\ qE = <<>> /\ qI = <<>> /\ qS = <<>> /\ sig = <<>>
         /\ tsPipe = 0 /\ sigPipe = 0 /\ now = 0 /\ pc = "idle" /\ deadline = NoDeadline /\ remaining = None
-        /\ t0 = 0 /\ when0 = None /\ delivered = <<>> /\ nextId = 1 /\ hist = <<>> /\ nact = 0 /\ reqT = None /\ hadSched = FALSE
+        /\ t0 = 0 /\ when0 = None /\ delivered = <<>> /\ nextId = 1 /\ hist = <<>> /\ nact = 0 /\ reqT = None /\ hadSched = FALSE /\ held = <<>> /\ ready = FALSE
 
 H(e) == hist' = Append(hist, e)
 Count == nact' = nact + 1 /\ nact < MaxActions
@@ -51,42 +51,42 @@ SumBytes(items) == SumSeq([k \in 1..Len(items) |-> items[k][2]])
 Arrive(n, nb) ==   \* n keypresses of nb bytes each arrive together
   /\ Count /\ wire' = wire \o [k \in 1..n |-> <<nextId + k - 1, nb>>] /\ nextId' = nextId + n
   /\ H([k |-> "arrive", n |-> n, nb |-> nb, id |-> nextId])
-  /\ UNCHANGED <<reqT, hadSched, buf, qE, qI, qS, sig, tsPipe, sigPipe, now, pc, deadline, remaining, t0, when0, delivered>>
+  /\ UNCHANGED <<reqT, hadSched, held, ready, buf, qE, qI, qS, sig, tsPipe, sigPipe, now, pc, deadline, remaining, t0, when0, delivered>>
 Unget ==
   /\ pc = "idle" /\ Count /\ buf' = Append(buf, <<nextId, 1>>) /\ nextId' = nextId + 1
   /\ H([k |-> "unget", id |-> nextId])
-  /\ UNCHANGED <<reqT, hadSched, wire, qE, qI, qS, sig, tsPipe, sigPipe, now, pc, deadline, remaining, t0, when0, delivered>>
+  /\ UNCHANGED <<reqT, hadSched, held, ready, wire, qE, qI, qS, sig, tsPipe, sigPipe, now, pc, deadline, remaining, t0, when0, delivered>>
 Trig ==
   /\ pc = "idle" /\ Count /\ qE' = Append(qE, nextId) /\ nextId' = nextId + 1
   /\ H([k |-> "trig", id |-> nextId])
-  /\ UNCHANGED <<reqT, hadSched, wire, buf, qI, qS, sig, tsPipe, sigPipe, now, pc, deadline, remaining, t0, when0, delivered>>
+  /\ UNCHANGED <<reqT, hadSched, held, ready, wire, buf, qI, qS, sig, tsPipe, sigPipe, now, pc, deadline, remaining, t0, when0, delivered>>
 Sched(w) ==
   /\ pc = "idle" /\ Count /\ qS' = Append(qS, <<w, nextId>>) /\ nextId' = nextId + 1
   /\ H([k |-> "sched", id |-> nextId, when |-> w])
-  /\ UNCHANGED <<reqT, hadSched, wire, buf, qE, qI, sig, tsPipe, sigPipe, now, pc, deadline, remaining, t0, when0, delivered>>
+  /\ UNCHANGED <<reqT, hadSched, held, ready, wire, buf, qE, qI, sig, tsPipe, sigPipe, now, pc, deadline, remaining, t0, when0, delivered>>
 TSAppend ==
   /\ Count /\ qI' = Append(qI, nextId) /\ nextId' = nextId + 1
   /\ H([k |-> "tsappend", id |-> nextId])
-  /\ UNCHANGED <<reqT, hadSched, wire, buf, qE, qS, sig, tsPipe, sigPipe, now, pc, deadline, remaining, t0, when0, delivered>>
+  /\ UNCHANGED <<reqT, hadSched, held, ready, wire, buf, qE, qS, sig, tsPipe, sigPipe, now, pc, deadline, remaining, t0, when0, delivered>>
 TSWrite ==
   /\ Count /\ tsPipe' = tsPipe + 1
   /\ H([k |-> "tswrite"])
-  /\ UNCHANGED <<reqT, hadSched, wire, buf, qE, qI, qS, sig, sigPipe, now, pc, deadline, remaining, t0, when0, delivered, nextId>>
+  /\ UNCHANGED <<reqT, hadSched, held, ready, wire, buf, qE, qI, qS, sig, sigPipe, now, pc, deadline, remaining, t0, when0, delivered, nextId>>
 SigInt ==
   /\ Count /\ sig' = Append(sig, nextId) /\ nextId' = nextId + 1 /\ sigPipe' = sigPipe + 1
   /\ H([k |-> "sigint", id |-> nextId])
-  /\ UNCHANGED <<reqT, hadSched, wire, buf, qE, qI, qS, tsPipe, now, pc, deadline, remaining, t0, when0, delivered>>
+  /\ UNCHANGED <<reqT, hadSched, held, ready, wire, buf, qE, qI, qS, tsPipe, now, pc, deadline, remaining, t0, when0, delivered>>
 Tick ==
   /\ now < MaxTime /\ now' = now + 1 /\ Count
   /\ H([k |-> "tick"])
-  /\ UNCHANGED <<reqT, hadSched, wire, buf, qE, qI, qS, sig, tsPipe, sigPipe, pc, deadline, remaining, t0, when0, delivered, nextId>>
+  /\ UNCHANGED <<reqT, hadSched, held, ready, wire, buf, qE, qI, qS, sig, tsPipe, sigPipe, pc, deadline, remaining, t0, when0, delivered, nextId>>
 
 (* ---------------- main thread ---------------- *)
 SortedS(q) == SortSeq(q, LAMBDA a, b : a[1] < b[1] \/ (a[1] = b[1] /\ a[2] < b[2]))
 Ret(x) == /\ Deliver(x) /\ pc' = "idle" /\ deadline' = NoDeadline /\ remaining' = None /\ when0' = None
 
 Start(T) ==
-  /\ pc = "idle" /\ Count /\ t0' = now /\ reqT' = T /\ hadSched' = (qS # <<>>)
+  /\ pc = "idle" /\ Count /\ t0' = now /\ reqT' = T /\ hadSched' = (qS # <<>>) /\ UNCHANGED <<held, ready>>
   /\ H([k |-> "req", timeout |-> T])
   /\ IF sig # <<>> THEN       \* self.sigints.pop()  (the most recent one)
           /\ Ret([kind |-> "sigint", id |-> sig[Len(sig)], t |-> now]) /\ sig' = SubSeq(sig, 1, Len(sig) - 1)
@@ -118,61 +118,80 @@ Start(T) ==
 RECURSIVE TakeItems(_, _)
 TakeItems(w, room) == IF w = <<>> \/ Head(w)[2] > room THEN <<>> ELSE <<Head(w)>> \o TakeItems(Tail(w), room - Head(w)[2])
 
+(* select() returned; _wait_for_read_ready_or_timeout hands back (stdin_ready, event) and _send goes on with its
+   post-wait checks in a separate step (PostWait) - the clock may advance in between (the thread is descheduled) *)
+ToPostWait(ev, rdy) == pc' = "postwait" /\ held' = ev /\ ready' = rdy
+
 WakeStdin ==
   /\ pc = "select" /\ wire # <<>>
-  /\ LET got == TakeItems(wire, ReadSize)
-         nbytes == SumBytes(got)
-         rest == SubSeq(wire, Len(got) + 1, Len(wire))
-     IN IF PasteThreshold # None /\ nbytes > PasteThreshold
-        THEN \* paste: keeps reading while fewer than a keypress-worth of bytes is buffered
-             /\ Ret([kind |-> "paste", ids |-> [k \in 1..Len(wire) |-> wire[k][1]], t |-> now])
-             /\ wire' = <<>> /\ buf' = buf
-        ELSE /\ Ret([kind |-> "key", id |-> got[1][1], t |-> now])
-             /\ wire' = rest /\ buf' = SubSeq(got, 2, Len(got))
-  /\ H([k |-> "wake", why |-> "stdin"]) /\ UNCHANGED <<reqT, hadSched>>
-  /\ UNCHANGED <<qE, qI, qS, sig, tsPipe, sigPipe, now, t0, nextId, nact>>
-
-WakeTS ==
-  /\ pc = "select" /\ wire = <<>> /\ sigPipe = 0 /\ tsPipe > 0
-  /\ tsPipe' = 0
-  /\ H([k |-> "wake", why |-> "ts"]) /\ UNCHANGED <<reqT, hadSched>>
-  /\ IF qI # <<>>
-     THEN /\ Ret([kind |-> "event", id |-> Head(qI), t |-> now]) /\ qI' = Tail(qI)
-          /\ UNCHANGED <<wire, buf, qE, qS, sig, sigPipe, now, t0, nextId, nact>>
-     ELSE \* remaining_timeout = max(0, t0 + timeout - time.time()): the deadline t0 + timeout stays where it was
-          /\ remaining' = IF remaining = None THEN None ELSE Max2(0, deadline - now)
-          /\ deadline' = IF remaining = None THEN NoDeadline ELSE Max2(now, deadline)
-          /\ UNCHANGED <<wire, buf, qE, qI, qS, sig, sigPipe, now, pc, t0, when0, delivered, nextId, nact>>
+  /\ ToPostWait(<<>>, TRUE)
+  /\ H([k |-> "wake", why |-> "stdin"])
+  /\ UNCHANGED <<wire, buf, qE, qI, qS, sig, tsPipe, sigPipe, now, deadline, remaining, t0, when0, delivered, nextId, nact, reqT, hadSched>>
 
 WakeSig ==
   /\ pc = "select" /\ wire = <<>> /\ sigPipe > 0 /\ sig # <<>>
   /\ sigPipe' = sigPipe - 1
-  /\ Ret([kind |-> "sigint", id |-> sig[Len(sig)], t |-> now]) /\ sig' = SubSeq(sig, 1, Len(sig) - 1)
-  /\ H([k |-> "wake", why |-> "sig"]) /\ UNCHANGED <<reqT, hadSched>>
-  /\ UNCHANGED <<wire, buf, qE, qI, qS, tsPipe, now, t0, nextId, nact>>
+  /\ ToPostWait(<<"sigint", sig[Len(sig)]>>, FALSE) /\ sig' = SubSeq(sig, 1, Len(sig) - 1)
+  /\ H([k |-> "wake", why |-> "sig"])
+  /\ UNCHANGED <<wire, buf, qE, qI, qS, tsPipe, now, deadline, remaining, t0, when0, delivered, nextId, nact, reqT, hadSched>>
 
-WakeSigStale ==   \* a signal byte whose SigIntEvent was already returned: InterruptedError path, timeout reduced by the time spent
+WakeSigStale ==   \* a signal byte whose SigIntEvent was already returned: InterruptedError path, timeout recomputed
   /\ pc = "select" /\ wire = <<>> /\ sigPipe > 0 /\ sig = <<>>
   /\ sigPipe' = sigPipe - 1
   /\ H([k |-> "wake", why |-> "sigstale"])
   /\ remaining' = IF remaining = None THEN None ELSE Max2(0, deadline - now)
   /\ deadline' = IF remaining = None THEN NoDeadline ELSE Max2(now, deadline)
-  /\ UNCHANGED <<wire, buf, qE, qI, qS, sig, tsPipe, now, pc, t0, when0, delivered, nextId, nact, reqT, hadSched>>
+  /\ UNCHANGED <<wire, buf, qE, qI, qS, sig, tsPipe, now, pc, t0, when0, delivered, nextId, nact, reqT, hadSched, held, ready>>
+
+WakeTS ==
+  /\ pc = "select" /\ wire = <<>> /\ sigPipe = 0 /\ tsPipe > 0
+  /\ tsPipe' = 0
+  /\ H([k |-> "wake", why |-> IF qI # <<>> THEN "ts" ELSE "tsstale"])
+  /\ IF qI # <<>>
+     THEN /\ ToPostWait(<<"event", Head(qI)>>, FALSE) /\ qI' = Tail(qI)
+          /\ UNCHANGED <<wire, buf, qE, qS, sig, sigPipe, now, deadline, remaining, t0, when0, delivered, nextId, nact, reqT, hadSched>>
+     ELSE \* remaining_timeout = max(0, t0 + timeout - time.time()): the deadline t0 + timeout stays where it was
+          /\ remaining' = IF remaining = None THEN None ELSE Max2(0, deadline - now)
+          /\ deadline' = IF remaining = None THEN NoDeadline ELSE Max2(now, deadline)
+          /\ UNCHANGED <<wire, buf, qE, qI, qS, sig, sigPipe, now, pc, t0, when0, delivered, nextId, nact, reqT, hadSched, held, ready>>
 
 Timeout ==
   /\ pc = "select" /\ wire = <<>> /\ tsPipe = 0 /\ sigPipe = 0 /\ deadline # NoDeadline /\ now >= deadline
-  /\ H([k |-> "wake", why |-> "timeout"]) /\ UNCHANGED <<reqT, hadSched>>
-  /\ IF qS # <<>> /\ when0 # None /\ when0 < now
-     THEN /\ Ret([kind |-> "sched", id |-> qS[1][2], t |-> now]) /\ qS' = Tail(qS)
-     ELSE /\ Ret([kind |-> "none", t |-> now, t0 |-> t0, T |-> reqT, sched |-> hadSched]) /\ qS' = qS
-  /\ UNCHANGED <<wire, buf, qE, qI, sig, tsPipe, sigPipe, now, t0, nextId, nact>>
+  /\ ToPostWait(<<>>, FALSE)
+  /\ H([k |-> "wake", why |-> "timeout"])
+  /\ UNCHANGED <<wire, buf, qE, qI, qS, sig, tsPipe, sigPipe, now, deadline, remaining, t0, when0, delivered, nextId, nact, reqT, hadSched>>
+
+(* the rest of _send after the wait: an event handed back by the wait first, then a scheduled event that has become
+   due, then None if stdin is not ready, else one read and a key or a paste *)
+PostWait ==
+  /\ pc = "postwait"
+  /\ H([k |-> "post"])
+  /\ held' = <<>> /\ ready' = FALSE
+  /\ IF held # <<>> THEN
+          /\ Ret([kind |-> held[1], id |-> held[2], t |-> now])
+          /\ UNCHANGED <<wire, buf, qE, qI, qS, sig, tsPipe, sigPipe, now, t0, nextId, nact, reqT, hadSched>>
+     ELSE IF qS # <<>> /\ when0 # None /\ when0 < now THEN
+          /\ Ret([kind |-> "sched", id |-> qS[1][2], t |-> now]) /\ qS' = Tail(qS)
+          /\ UNCHANGED <<wire, buf, qE, qI, sig, tsPipe, sigPipe, now, t0, nextId, nact, reqT, hadSched>>
+     ELSE IF ~ready \/ wire = <<>> THEN
+          /\ Ret([kind |-> "none", t |-> now, t0 |-> t0, T |-> reqT, sched |-> hadSched])
+          /\ UNCHANGED <<wire, buf, qE, qI, qS, sig, tsPipe, sigPipe, now, t0, nextId, nact, reqT, hadSched>>
+     ELSE LET got == TakeItems(wire, ReadSize)
+              nbytes == SumBytes(got)
+              rest == SubSeq(wire, Len(got) + 1, Len(wire))
+          IN /\ IF PasteThreshold # None /\ nbytes > PasteThreshold
+                THEN /\ Ret([kind |-> "paste", ids |-> [k \in 1..Len(wire) |-> wire[k][1]], t |-> now])
+                     /\ wire' = <<>> /\ buf' = buf
+                ELSE /\ Ret([kind |-> "key", id |-> got[1][1], t |-> now])
+                     /\ wire' = rest /\ buf' = SubSeq(got, 2, Len(got))
+             /\ UNCHANGED <<qE, qI, qS, sig, tsPipe, sigPipe, now, t0, nextId, nact, reqT, hadSched>>
 
 Next ==
   \/ \E b \in Bursts : Arrive(b[1], b[2])
   \/ Unget \/ Trig \/ TSAppend \/ TSWrite \/ SigInt \/ Tick
   \/ \E w \in 0..MaxTime : Sched(w)
   \/ \E T \in Timeouts : Start(T)
-  \/ WakeStdin \/ WakeTS \/ WakeSig \/ WakeSigStale \/ Timeout
+  \/ WakeStdin \/ WakeTS \/ WakeSig \/ WakeSigStale \/ Timeout \/ PostWait
 Spec == Init /\ [][Next]_vars
 
 (* ---------------- L1 over the ghost `delivered` ---------------- *)
@@ -191,7 +210,7 @@ KeysInArrivalOrder == /\ Increasing(SelectSeq(KeyIds, LAMBDA x : x \in UngetIds)
 SchedNotEarly == \A k \in 1..Len(delivered) : delivered[k].kind = "sched" =>
                     \E j \in 1..Len(hist) : hist[j].k = "sched" /\ hist[j].id = delivered[k].id /\ hist[j].when < delivered[k].t
 NothingLostWhenIdle ==   \* conservation: everything injected is delivered or still pending
-  Cardinality(SeqRange(AllIds)) + Len(wire) + Len(buf) + Len(qE) + Len(qI) + Len(qS) + Len(sig) = nextId - 1
+  Cardinality(SeqRange(AllIds)) + Len(wire) + Len(buf) + Len(qE) + Len(qI) + Len(qS) + Len(sig) + (IF held # <<>> THEN 1 ELSE 0) = nextId - 1
 NoneNotEarly == \A k \in 1..Len(delivered) :
    (delivered[k].kind = "none" /\ ~delivered[k].sched) => delivered[k].t >= delivered[k].t0 + delivered[k].T
 EmitBehaviour == (Emit /\ nact = MaxActions /\ pc = "idle") => PrintT(<<"BEH", ToJson(hist)>>)
